@@ -1548,7 +1548,12 @@ class Interp:
         if attr == "keys":
             return self.new_container(fr, node, "list", self.elements(rv, fr))
         if attr == "values":
-            return self.new_container(fr, node, "list", self.dict_values(rv, fr))
+            res = self.new_container(fr, node, "list", self.dict_values(rv, fr))
+            # how many values there are (and how often each occurs) is decided by the keys: Counter(d.values()) depends on them
+            for n in res:
+                if n[0] == "obj":
+                    self.der(("setop", n), self.elements(rv, fr))
+            return res
         if attr == "copy":
             return self.shallow_copy(fr, node, rv)
         if attr in ("union", "intersection", "difference", "symmetric_difference"):
